@@ -204,6 +204,11 @@ void Reference::apply_repetition(Array<Reference*>& result) {
     Array<Vec2> offsets = {};
     repetition.get_offsets(offsets);
     repetition.clear();
+    if (offsets.count < 2) {
+        // Nothing to copy (a lattice with 0 columns or rows enumerates no offsets)
+        offsets.clear();
+        return;
+    }
 
     // Skip first offset (0, 0)
     double* offset_p = (double*)(offsets.items + 1);
